@@ -240,7 +240,8 @@ class FortranGen:
                      1.0 if "<state>r" in self.types and depth >= 2 else 0,   # 17 array overwritten with other length
                      0.9,                    # 18 user function with two user-type results
                      1.0 if "<state>r" in self.types else 0,   # 19 scalar assigned an integer and a real
-                     0.8]                    # 20 user function returning (scalar, user type)
+                     0.8,                    # 20 user function returning (scalar, user type)
+                     1.5 if ("<state>v" in self.types and "<state>r" in self.types) else 0]   # 21 one built-in, both user types
                 k = t.weighted(w, "opkind")
                 op = self.gen_op(k, D, depth)
                 if op is None:
@@ -518,6 +519,26 @@ class FortranGen:
                     kws.reverse()
                 return ("call", (tgt,), Call("<builtin>matmul", [Var(a), Var(a)], kws), self.mode())
             return ("call", (tgt,), Call("<builtin>matmul", [Var(a), Var(a), Const(c), Const(r)]), self.mode())
+        if k == 21:
+            # the same built-in applied to a value of each user type (their lengths differ) in one phase, in
+            # either order; both results end up in persistent state
+            cands = [x for x in SC_TEMPS if self.cls.get(x, "inexact") == "inexact"]
+            r1 = self.new_name(cands, "real", D, reuse_p=0.0)
+            r2 = self.new_name([x for x in cands if x != r1], "real", D, reuse_p=0.0)
+            if r1 is None or r2 is None or r1 in D or r2 in D:
+                return None
+            self.cls[r1] = self.cls[r2] = "inexact"
+            D.add(r1)
+            D.add(r2)
+            fn = self.pick(["<builtin>norm_2", "<builtin>len", "<builtin>norm_2"], "bothfn")
+            uy = self.pick(uts, "bothy")
+            vs_ = self.of(D, "utv") or ["<state>v"]
+            uv = self.pick(vs_, "bothv")
+            calls = [("call", (r1,), Call(fn, [Var(uy)]), self.mode()), ("call", (r2,), Call(fn, [Var(uv)]), self.mode())]
+            if t.chance(0.5, "bothorder"):
+                calls.reverse()
+            return calls + [("assign", "<state>r", None, Bin("+", Var(r1), Bin("*", Const(10.0), Var(r2))), [],
+                             self.mode())]
         if k == 20:
             cands = [x for x in SC_TEMPS if self.cls.get(x, "inexact") == "inexact"]
             e_ = self.new_name(cands, "real", D)
